@@ -214,7 +214,11 @@ def build(case, with_dask, out_dir=None):
     if out_dir is not None:
         from pyxel.outputs import ObservationOutputs
         outputs = ObservationOutputs(output_folder=out_dir, save_data_to_file=[{"detector.pixel.array": ["npy"]}])
-    obs = Observation(parameters=params, mode=case["mode"], readout=pyx.make_readout(times=[1.0]),
+    st = case.get("det") if case.get("pipe") and case["kind"] == "encs" else None
+    readout = pyx.make_readout(times=[1.0])
+    if st and len(st) >= 8:
+        readout = pyx.make_readout(times=[float(st[6])], non_destructive=bool(st[7]))
+    obs = Observation(parameters=params, mode=case["mode"], readout=readout,
                       with_dask=with_dask, outputs=outputs, pipeline_seed=case.get("pipeline_seed"), **kw)
     return det, pipe, obs
 
